@@ -1,14 +1,21 @@
 -------------------------- MODULE RateLimitTrace --------------------------
-(* C36, enforcement: bursts of requests recorded from the real               *)
-(* RateLimitHandler.Func under one fixed rule are judged by                  *)
-(* RateLimit!WindowOK. One line of trace.ndjson per burst:                   *)
-(*   [burst, per (microseconds), kind ("limit"|"nolimit"|"zero"), obs]      *)
-(* obs = sequence of [tb, ta, ok]: harness clock (us, monotonic) read before *)
-(* and after the call, ok = 1 if the request was allowed. The limiter reads  *)
-(* its own clock between tb and ta, so the window from tb_i to ta_j contains *)
-(* the limiter's window for calls i..j: the bound is sound without a clock   *)
-(* hook. A burst that breaks the bound is printed as MISMATCH with its class *)
-(* and validation goes on.                                                   *)
+(* C36, enforcement: executions recorded from the real                       *)
+(* RateLimitHandler.Func are judged by RateLimit!WindowOK.                    *)
+(* One line of trace.ndjson per execution:                                    *)
+(*   [src, insts]   insts = one sequence per limiter instance (addr, handler) *)
+(*                  of <<burst, per, tb, ta, ok, step>> in call order         *)
+(* An execution is either the replay of a history of RateLimit.tla (requests  *)
+(* mixed with SetClientID / SetNet / SetNode / SetSuffrage / SetDefault /     *)
+(* SetMembers / AddNode; src = "history") or a burst of calls under one rule  *)
+(* while the harness replaces rule sets by equal ones, changes the suffrage   *)
+(* state hash, flips the type of the picked rule or sends other traffic       *)
+(* (src = "burst"). burst and per are the limiter's own, as                   *)
+(* RateLimiterResult reports them after each call; tb / ta = harness clock    *)
+(* (monotonic) read before / after the call, in the unit of per. The limiter  *)
+(* reads its clock between tb and ta, so the bound is sound without a clock   *)
+(* hook. An execution that breaks the bound is printed as MISMATCH with the   *)
+(* instance and the steps of its earliest shortest bad window, and            *)
+(* validation goes on.                                                        *)
 EXTENDS RateLimit
 
 Trace == ndJsonDeserialize("trace.ndjson")
@@ -16,32 +23,44 @@ VARIABLE l
 tvars == <<vars, l>>
 Ev == Trace[l]
 
-\* cumulative count of allowed calls: Cum(obs)[k] = allowed among obs[1..k]
-Cum(obs) == [k \in 0..Len(obs) |-> Cardinality({m \in 1..k : obs[m].ok = 1})]
+(* WindowOK with cumulative counts and run starts (same predicate, fewer evaluations):
+   C[m] = allowed among s[1..m]; rs[j] = first call of the run of equal rules that contains j *)
+BadWindows(s) ==
+  LET len == Len(s)
+      C == [m \in 0..len |-> Cardinality({x \in 1..m : s[x][5] = 1})]
+      B == {m \in 1..len : m = 1 \/ s[m][1] # s[m - 1][1] \/ s[m][2] # s[m - 1][2]}
+      rs == [m \in 1..len |-> CHOOSE x \in B : x <= m /\ \A y \in B : y <= m => y <= x]
+  IN {p \in (1..len) \X (1..len) :
+        /\ s[p[2]][1] > 0 /\ rs[p[2]] <= p[1] /\ p[1] <= p[2]
+        /\ (C[p[2]] - C[p[1] - 1] - s[p[2]][1]) * s[p[2]][2] > s[p[2]][1] * (s[p[2]][4] - s[p[1]][3])}
+WindowOKFast(s) ==
+  LET len == Len(s)
+      C == [m \in 0..len |-> Cardinality({x \in 1..m : s[x][5] = 1})]
+      B == {m \in 1..len : m = 1 \/ s[m][1] # s[m - 1][1] \/ s[m][2] # s[m - 1][2]}
+      rs == [m \in 1..len |-> CHOOSE x \in B : x <= m /\ \A y \in B : y <= m => y <= x]
+  IN \A j \in 1..len : s[j][1] > 0 =>
+        \A i \in rs[j]..j : (C[j] - C[i - 1] - s[j][1]) * s[j][2] <= s[j][1] * (s[j][4] - s[i][3])
 
-\* WindowOK with the counts taken from the cumulative counts (same predicate, fewer evaluations)
-WindowOKFast(burst, per, obs) ==
-  LET C == Cum(obs)
-  IN \A i \in 1..Len(obs) : \A j \in i..Len(obs) :
-        (C[j] - C[i - 1]) * per <= burst * per + burst * (obs[j].ta - obs[i].tb)
+\* the earliest, then shortest, bad window of an instance
+FirstBad(s) == CHOOSE p \in BadWindows(s) : \A q \in BadWindows(s) : p[2] < q[2] \/ (p[2] = q[2] /\ p[1] >= q[1])
 
-AllowedCount(obs) == Cum(obs)[Len(obs)]
+JudgeInst(x, s) ==
+  /\ IF WindowOKFast(s) THEN TRUE
+     ELSE PrintT(<<"MISMATCH", "window-bound", l, x, s[FirstBad(s)[1]][6], s[FirstBad(s)[2]][6]>>)
+  /\ IF ZeroRuleOK(s) THEN TRUE
+     ELSE PrintT(<<"MISMATCH", "zero-rule-allows", l, x, 0, 0>>)
 
-Judge(e) ==
-  CASE e.kind = "limit"   -> IF WindowOKFast(e.burst, e.per, e.obs) THEN TRUE
-                             ELSE PrintT(<<"MISMATCH", "window-bound", l, e.burst, e.per>>)
-    [] e.kind = "zero"    -> IF AllowedCount(e.obs) = 0 THEN TRUE
-                             ELSE PrintT(<<"MISMATCH", "zero-rule-allows", l, AllowedCount(e.obs), 0>>)
-    [] e.kind = "nolimit" -> TRUE      \* nothing to bound
+Judge(e) == \A x \in 1..Len(e.insts) : JudgeInst(x, e.insts[x])
 
 \* the variables of part 1 are not used here: they stay at their initial values
 TraceInit == Init /\ l = 1
 TraceNext == l <= Len(Trace) /\ Judge(Ev) /\ l' = l + 1 /\ UNCHANGED vars
 TraceSpec == TraceInit /\ [][TraceNext]_tvars
 
-\* the fast form is the statement's form (checked on the first bursts only: it is quadratic times linear)
-FastIsSlow == (l <= Len(Trace) /\ l <= 3 /\ Ev.kind = "limit" /\ Len(Ev.obs) <= 60) =>
-                 (WindowOKFast(Ev.burst, Ev.per, Ev.obs) <=> WindowOK(Ev.burst, Ev.per, Ev.obs))
+\* the fast form is the statement's form (checked on short instances only: the latter is cubic)
+FastIsSlow == l <= Len(Trace) =>
+                 \A x \in 1..Len(Ev.insts) : Len(Ev.insts[x]) <= 12 =>
+                    (WindowOKFast(Ev.insts[x]) <=> WindowOK(Ev.insts[x]))
 
 ASSUME TLCSet(1, 0)
 HighWater == TLCSet(1, IF l > TLCGet(1) THEN l ELSE TLCGet(1))
